@@ -327,6 +327,8 @@ func nilKind(r *Resolver, v ssa.Value, at ssa.Instruction) string {
 	return MaybeNil
 }
 
+var nilDepth int
+
 func nilKindOrg(r *Resolver, a *Org, at ssa.Instruction) string {
 	switch a.K {
 	case "const":
@@ -342,6 +344,70 @@ func nilKindOrg(r *Resolver, a *Org, at ssa.Instruction) string {
 		switch a.Name {
 		case "fmt.Errorf", "errors.New":
 			return NonNil
+		}
+		// a repository constructor / helper: the kind common to all its
+		// returns for that result (a literal, fmt.Errorf, nil, ...)
+		if call, ok := a.V.(*ssa.Call); ok && a.R != nil {
+			if sc := staticCallee(call.Common()); sc != nil && InRepo(sc) && sc.Blocks != nil {
+				idx := a.Idx
+				if idx < 0 {
+					idx = 0
+				}
+				nr := a.R.Bind(sc, call)
+				kind := ""
+				allInstrs(sc, func(in ssa.Instruction) {
+					ret, isRet := in.(*ssa.Return)
+					if !isRet || idx >= len(ret.Results) || ret.Block() == sc.Recover {
+						return
+					}
+					k := MaybeNil
+					if nilDepth < 4 {
+						nilDepth++
+						k = nilKind(nr, ret.Results[idx], ret)
+						// the result of calling a function-typed parameter:
+						// what the closure given at this call site returns
+						rv := ret.Results[idx]
+						if _, isLoad := rv.(*ssa.UnOp); isLoad {
+							if u := fsUnique(rv, ret, nil); u != nil {
+								rv = u // a result spilled because of defer
+							}
+						}
+						if rc, isCall := rv.(*ssa.Call); isCall && k == MaybeNil {
+							if prm, isPrm := rc.Call.Value.(*ssa.Parameter); isPrm {
+								if co := nr.Of(prm); co.K == "closure" {
+									if mc, isMC := co.V.(*ssa.MakeClosure); isMC {
+										cf := mc.Fn.(*ssa.Function)
+										ck := ""
+										cr := NewResolver(r.P)
+										allInstrs(cf, func(ci ssa.Instruction) {
+											if cret, isR := ci.(*ssa.Return); isR && len(cret.Results) == 1 {
+												x := nilKind(cr, cret.Results[0], cret)
+												if ck == "" {
+													ck = x
+												} else if ck != x {
+													ck = MaybeNil
+												}
+											}
+										})
+										if ck != "" {
+											k = ck
+										}
+									}
+								}
+							}
+						}
+						nilDepth--
+					}
+					if kind == "" {
+						kind = k
+					} else if kind != k {
+						kind = MaybeNil
+					}
+				})
+				if kind == NonNil || kind == IsNil {
+					return kind
+				}
+			}
 		}
 	}
 	// guarded by a dominating comparison with nil?
